@@ -294,6 +294,35 @@ def _native_charts(tier="quick", seed=0):
         except Exception as e:
             bad = bad or "%s: chart added with no series, then replace_data with 2 series: raised %r" % (ct.name, e)
     rec("C07.native.replace_data_on_a_chart_without_series", bad)
+    # 2c. one chart-data object used twice with changes in between (a category, a series, a point added; a number format changed)
+    bad = None
+    from pptx.chart.data import CategoryChartData as _CCD
+
+    for ct in [t for t in cat_types if t.name in ("COLUMN_CLUSTERED", "LINE", "AREA", "BAR_STACKED", "PIE", "RADAR")]:
+        cd = _CCD()
+        cd.categories = ["Q1", "Q2"]
+        s1 = cd.add_series("first", (1, 2))
+        prs = Presentation()
+        sl = prs.slides.add_slide(prs.slide_layouts[6])
+        evals += 1
+        try:
+            chart = sl.shapes.add_chart(ct, 0, 0, Inches(3), Inches(2), cd).chart
+            _ = chart.part.blob, cd.xlsx_blob, cd.categories.leaf_count, cd.categories.depth
+            cd.add_category("Q3")
+            s1.add_data_point(3.5)
+            series_now = [("first", [1, 2, 3.5])]
+            if ct not in single_series:
+                s2 = cd.add_series("second", (7, None, 9))
+                series_now.append(("second", [7, None, 9]))
+            chart.replace_data(cd)
+            b = _check_category_chart(chart, ["Q1", "Q2", "Q3"], series_now, "%s: chart data re-used after a category, a point and a series were added" % ct.name)
+            if b is None:
+                v = validate_root(chart.part._element)
+                b = ("%s: chart part not schema-valid after re-use: %s" % (ct.name, v[:1])) if v else None
+            bad = bad or b
+        except Exception as e:
+            bad = bad or "%s: chart data re-used after additions: raised %r" % (ct.name, e)
+    rec("C07.native.chart_data_object_reused_after_changes", bad)
     # 3. replace_data with data of a different shape; formatting of surviving series and other chart content untouched
     reps = 2 if tier == "quick" else 6
     for ct in cat_types:
